@@ -51,17 +51,33 @@ VH_AREA(cdem) {
             bool allow_gauge = (variant & 2) && rng.chance(0.5);
             double approx = rng.chance(0.5) ? 0.0 : 1.0;
             bool decompose = want_decomp && rng.chance(0.7);
+            bool ignore_failures = decompose && rng.chance(0.5), block_remnant = decompose && rng.chance(0.5);
             std::string answer;
+            bool decomposition_failed = false;
             try {
-                auto dem = ErrorAnalyzer::circuit_to_detector_error_model(big, decompose, fold, allow_gauge, approx, decompose && rng.chance(0.5), decompose && rng.chance(0.5));
+                auto dem = ErrorAnalyzer::circuit_to_detector_error_model(big, decompose, fold, allow_gauge, approx, ignore_failures, block_remnant);
                 answer = wire_dem(dem);
                 st.hit(fold ? "dem.accepted.folded" : "dem.accepted.unfolded");
                 if (dem.count_detectors() > big.count_detectors()) out_x("model mentions more detectors than the circuit declares");
+                if (decompose) {
+                    out_q(std::string("demsem decomp ") + (ignore_failures ? "1" : "0") + " " + (block_remnant ? "1" : "0") + " " + answer, "ok");
+                    st.hit("dem.decomposed");
+                }
             } catch (const std::invalid_argument &e) {
                 answer = "reject";
                 st.hit("dem.rejected");
+                if (decompose) {
+                    // a reported decomposition failure is allowed; the circuit must then be analysable without decomposition
+                    try {
+                        ErrorAnalyzer::circuit_to_detector_error_model(big, false, fold, allow_gauge, approx, false, false);
+                        decomposition_failed = true;
+                        st.hit("dem.decomposition_failure_reported");
+                    } catch (const std::invalid_argument &) {
+                    }
+                }
             }
-            out_q("demsem check " + w + " " + (allow_gauge ? "1" : "0") + " " + (approx > 0 ? "1" : "0") + " " + std::to_string(rng.below(1000000)) + " " + answer, "ok");
+            if (!decomposition_failed)
+                out_q("demsem check " + w + " " + (allow_gauge ? "1" : "0") + " " + (approx > 0 ? "1" : "0") + " " + std::to_string(rng.below(1000000)) + " " + answer, "ok");
         }
         if (!a.replay.empty()) break;
     }
